@@ -10,6 +10,7 @@ unquoted expressions, any hash constructor), every template at any depth and eve
 import ZygoVerif.Model.SQ
 import ZygoVerif.Spec.Subst
 import ZygoVerif.Proofs.SQ
+import ZygoVerif.Model.LegacySQ
 namespace ZygoVerif.SQ
 open ZygoVerif.Subst
 
@@ -80,5 +81,95 @@ runs and nothing is pushed. -/
 theorem top_splice_rejected (H : Host) (e : Sexp) (st : Stack) :
     genTop H (Tmpl.splice e).toSexp = none ∧ exec H (genTop H (Tmpl.splice e).toSexp) st = none := by
   simp [genTop, Tmpl.toSexp, isUnquoteSplicing, unqKind, isList, exec]
+
+/-! ### what the theorem says about splice positions (facts about the spec) -/
+
+theorem itemsL_append (ρ : Binding) (xs ys : List Tmpl) :
+    itemsL ρ (xs ++ ys) = (do let a ← itemsL ρ xs; let b ← itemsL ρ ys; some (a ++ b)) := by
+  induction xs with
+  | nil => cases h : itemsL ρ ys <;> simp [itemsL, h]
+  | cons t ts ih =>
+    simp only [List.cons_append, itemsL, ih]
+    cases items ρ t <;> cases itemsL ρ ts <;> cases itemsL ρ ys <;> simp
+
+/-- A splice anywhere in a list — first, last, next to other splices — contributes the
+elements of its list in place; an empty list contributes nothing. -/
+theorem splice_in_place (ρ : Binding) (pre post : List Tmpl) (e : Sexp) (a b xs : List Sexp)
+    (hpre : itemsL ρ pre = some a) (hpost : itemsL ρ post = some b)
+    (he : (ρ.value e).bind elems = some xs) :
+    subst ρ (.list (pre ++ .splice e :: post)) = some (ofList (a ++ xs ++ b)) := by
+  simp [subst, items, itemsL_append, itemsL, hpre, hpost, he]
+
+/-! ### concrete instances (the hypotheses above are satisfiable; the model computes) -/
+
+section Examples
+def sym (n : String) : Sexp := .atom (.sym n)
+def num (n : Int) : Sexp := .atom (.int n)
+/-- `x = 5`, `l = (1 2)`, `e = ()`, `bad` does not compile; hashes are kept as written. -/
+def exH : Host where
+  genOK := fun e => e != sym "bad"
+  eval := fun e =>
+    if e = sym "x" then some (num 5)
+    else if e = sym "l" then some (mkList [num 1, num 2])
+    else if e = sym "e" then some .nil
+    else none
+  mkHash := fun ty xs => if xs.length % 2 = 0 then some (.hash ty (mkList xs)) else none
+
+/-- `^(~@l a ~@e ~@l [~x ~@l] ~@e)` = `(1 2 a 1 2 [5 1 2])`, nothing left on the stack. -/
+example : evalSQ exH (Tmpl.list [.splice (sym "l"), .lit (.sym "a"), .splice (sym "e"), .splice (sym "l"),
+      .arr [.unquote (sym "x"), .splice (sym "l")], .splice (sym "e")]).toSexp
+    = some (mkList [num 1, num 2, sym "a", num 1, num 2, .arr (mkList [num 5, num 1, num 2])], 0) := by
+  decide
+
+example : (Tmpl.list [.splice (sym "l"), .arr [.unquote (sym "x")]]).WF = true := by decide
+
+/-- `{a: ~@l b: ~x c: ~@e}` through the Go API: the items `a 1 2 b 5 c` in key order. -/
+example : evalSQ exH (Tmpl.hash "hash" [(.lit (.sym "a"), .splice (sym "l")), (.lit (.sym "b"), .unquote (sym "x")),
+      (.lit (.sym "c"), .splice (sym "e"))]).toSexp
+    = some (.hash "hash" (mkList [sym "a", num 1, num 2, sym "b", num 5, sym "c"]), 0) := by
+  decide
+
+end Examples
+
+/-! ### the pinned tree (before fixes/C15-02, C15-03 and the error-propagation commit) -/
+
+/-- `^~@l` with `l = (1 2)`: the pre-fix code returned 2 and left 1 operand behind. -/
+theorem C15_counterexample_top_splice :
+    Legacy.SQ.evalSQ exH (Tmpl.splice (sym "l")).toSexp = some (num 2, 1)
+    ∧ subst (toBinding exH) (.splice (sym "l")) = none := by
+  decide
+
+/-- In general the pre-fix code pushed *all* elements of the spliced list: as many operands
+as the list is long, on any stack. -/
+theorem legacy_top_splice_pushes_all (H : Host) (e v : Sexp) (xs : List Sexp) (st : Stack)
+    (hg : H.genOK e = true) (he : H.eval e = some v) (hl : listToArray v = some xs) :
+    Legacy.SQ.run H (Legacy.SQ.genSQ H (Tmpl.splice e).toSexp) st = some (pushAll xs st) := by
+  simp [Tmpl.toSexp, Legacy.SQ.genSQ, isList, unqKind, hg, Legacy.SQ.run, Legacy.SQ.step, step, he, hl]
+
+/-- `^(a (unquote bad) b)` where `bad` does not compile: the error was dropped and the
+element silently vanished — `(a b)` instead of an error. -/
+theorem C15_counterexample_dropped_error :
+    let t := Tmpl.list [.lit (.sym "a"), .unquote (sym "bad"), .lit (.sym "b")]
+    Legacy.SQ.evalSQ exH t.toSexp = some (mkList [sym "a", sym "b"], 0)
+    ∧ subst (toBinding exH) t = none ∧ evalSQ exH t.toSexp = none := by
+  decide
+
+/-- `^((x y) ~@bad)`: the orphaned `explode` ate the neighbouring element. -/
+theorem C15_counterexample_dropped_error_splice :
+    let t := Tmpl.list [.list [.lit (.sym "x"), .lit (.sym "y")], .splice (sym "bad")]
+    Legacy.SQ.evalSQ exH t.toSexp = some (mkList [sym "x", sym "y"], 0)
+    ∧ subst (toBinding exH) t = none := by
+  decide
+
+/-- `{a: ~@l b: ~x c: ~@e}` (a hash value, built through the Go API), `l = (1 2)`: the pre-fix
+code handed MakeHash `a 2 1 b 5 c` instead of `a 1 2 b 5 c` — a spliced list came out reversed. -/
+theorem C15_counterexample_hash_splice_reversed :
+    let t := Tmpl.hash "hash" [(.lit (.sym "a"), .splice (sym "l")), (.lit (.sym "b"), .unquote (sym "x")),
+      (.lit (.sym "c"), .splice (sym "e"))]
+    Legacy.SQ.evalSQ exH t.toSexp
+      = some (.hash "hash" (mkList [sym "a", num 2, num 1, sym "b", num 5, sym "c"]), 0)
+    ∧ subst (toBinding exH) t
+      = some (.hash "hash" (mkList [sym "a", num 1, num 2, sym "b", num 5, sym "c"])) := by
+  decide
 
 end ZygoVerif.SQ
